@@ -1,6 +1,8 @@
 import NanoVerif.Model.Proto
 import NanoVerif.Model.Parameter
 import NanoVerif.Model.Configurable
+import NanoVerif.Model.ParamNarrow
+import NanoVerif.Model.Factory
 import NanoVerif.Gen.FactoryParams
 /-! driver families `param`, `config`, `factory`, `owner` (C19): one self-contained op per line; scalars are `XF`
     (exact doubles), read from / printed as 16 hex digits of the bit pattern -/
@@ -179,6 +181,7 @@ inductive Cop where
   | get (name : String) (op : Op XF)
   | cfg (name : String) (op : Op XF)
   | has (name : String)
+  | copy
 
 def pCop : P Cop
   | "reg" :: ts => do
@@ -198,6 +201,9 @@ def pCop : P Cop
   | "has" :: ts => do
     let (name, ts) ← pQ ts
     pure (.has name, ts)
+  | "copy" :: ts => do
+    let (_, ts) ← pQ ts
+    pure (.copy, ts)
   | _ => none
 
 def copStep (c : Config XF) : Cop → Config XF × String
@@ -214,6 +220,8 @@ def copStep (c : Config XF) : Cop → Config XF × String
     let r := c.applyAt name op
     (r.1, showRes r.2)
   | .has name => (c, s!"ok {showBool (c.has name)}")
+  -- the defaulted copy / move operations of `configurable_t`: the registered parameters travel as they are
+  | .copy => (c, "ok 1")
 
 def showParams (ps : List (String × Storage XF)) : String :=
   String.intercalate " " (toString ps.length :: ps.map (fun p => s!"{showQ p.1} {showState p.2}"))
@@ -392,6 +400,208 @@ def ownerHist (ts : Toks) : Option String := do
   guard ts.isEmpty
   ownerRun [] ops answers "ok"
 
+
+/-! ### family `paramx`: the rest of the interface of `parameter_t` -/
+
+def pNum : P (Num XF)
+  | "i" :: ts => do
+    let (v, ts) ← pInt ts
+    pure (.i v, ts)
+  | "f" :: ts => do
+    let (v, ts) ← pXF ts
+    pure (.f v, ts)
+  | _ => none
+
+def pXSpec : P (XSpec XF)
+  | "xint" :: ts => do
+    let (mn, ts) ← pNum ts
+    let (c1, ts) ← pCmp ts
+    let (v, ts) ← pNum ts
+    let (c2, ts) ← pCmp ts
+    let (mx, ts) ← pNum ts
+    pure (.integer mn c1 v c2 mx, ts)
+  | "xfloat" :: ts => do
+    let (mn, ts) ← pNum ts
+    let (c1, ts) ← pCmp ts
+    let (v, ts) ← pNum ts
+    let (c2, ts) ← pCmp ts
+    let (mx, ts) ← pNum ts
+    pure (.scalar mn c1 v c2 mx, ts)
+  | "xipair" :: ts => do
+    let (mn, ts) ← pNum ts
+    let (c1, ts) ← pCmp ts
+    let (v1, ts) ← pNum ts
+    let (cv, ts) ← pCmp ts
+    let (v2, ts) ← pNum ts
+    let (c2, ts) ← pCmp ts
+    let (mx, ts) ← pNum ts
+    pure (.integerPair mn c1 v1 cv v2 c2 mx, ts)
+  | "xfpair" :: ts => do
+    let (mn, ts) ← pNum ts
+    let (c1, ts) ← pCmp ts
+    let (v1, ts) ← pNum ts
+    let (cv, ts) ← pCmp ts
+    let (v2, ts) ← pNum ts
+    let (c2, ts) ← pCmp ts
+    let (mx, ts) ← pNum ts
+    pure (.scalarPair mn c1 v1 cv v2 c2 mx, ts)
+  | ts => do
+    let (s, ts) ← pSpec ts
+    pure (.plain s, ts)
+
+def pXOp : P (XOp XF)
+  | "si32" :: ts => do
+    let (v, ts) ← pInt ts
+    guard (-twoP31 ≤ v ∧ v < twoP31)
+    pure (.setI32 v, ts)
+  | "su64" :: ts => do
+    let (v, ts) ← pNat ts
+    guard (Int.ofNat v < twoP64)
+    pure (.setU64 (Int.ofNat v), ts)
+  | "sb" :: ts => do
+    let (v, ts) ← pNat ts
+    guard (v ≤ 1)
+    pure (.setBool (v == 1), ts)
+  | "sf32" :: ts => do
+    let (v, ts) ← pXF ts
+    guard (v == .nan || XF.toF32 v == XF.canon v)
+    pure (.setF32 v, ts)
+  | "ri32" :: ts => some (.readI32, ts)
+  | "ru64" :: ts => some (.readU64, ts)
+  | "rf32" :: ts => some (.readF32, ts)
+  | "rpi32" :: ts => some (.readPairI32, ts)
+  | "rpf32" :: ts => some (.readPairF32, ts)
+  | "eq" :: ts => do
+    let (same, ts) ← pNat ts
+    guard (same ≤ 1)
+    let (spec, ts) ← pXSpec ts
+    pure (.eqWith (same == 1) spec, ts)
+  | ts => do
+    let (op, ts) ← pOp ts
+    pure (.base op, ts)
+
+def showXRes : XRes XF → String
+  | .res r => showRes r
+  | .bool b => s!"ok {showBool b}"
+  | .na => "na"
+  | .noOther => "noother"
+
+def paramxHist (ts : Toks) : Option String := do
+  let (spec, ts) ← pXSpec ts
+  let (n, ts) ← pNat ts
+  let (ops, ts) ← pMany pXOp n ts
+  guard ts.isEmpty
+  match xmake spec with
+  | .error e => pure s!"throw {showErr e}"
+  | .ok s0 =>
+    let r := ops.foldl (fun (acc : String × Storage XF) op =>
+      let sr := xstep acc.2 op
+      (acc.1 ++ s!" ; {showXRes sr.2} / {showState sr.1}", sr.1)) (s!"ok {showState s0}", s0)
+    pure r.1
+
+/-! ### family `fact`: histories over a factory of our own -/
+
+def pPat : P Pat
+  | "any" :: ts => do
+    let (_, ts) ← pQ ts
+    pure (.any, ts)
+  | "lit" :: ts => do
+    let (s, ts) ← pQ ts
+    pure (.lit s, ts)
+  | "pre" :: ts => do
+    let (s, ts) ← pQ ts
+    pure (.pre s, ts)
+  | "suf" :: ts => do
+    let (s, ts) ← pQ ts
+    pure (.suf s, ts)
+  | "sub" :: ts => do
+    let (s, ts) ← pQ ts
+    pure (.sub s, ts)
+  | _ => none
+
+/-- `vh_object_t(id, value)` of the harness: one integer parameter `0 <= p <= 10`; `none` = the constructor throws -/
+def vhObject (id : String) (v : Int) : Option (Tree XF) :=
+  match make (.int ⟨v, 0, 10, .le, .le⟩ : Spec XF) with
+  | .ok s => some (.node id [("p", s)] [])
+  | .error _ => none
+
+/-- an operation as read from the line; `addBad` = an `add` whose prototype cannot be constructed -/
+inductive FLine where
+  | op (o : FOp XF)
+  | addBad
+
+def pFLine : P FLine
+  | "add" :: ts => do
+    let (id, ts) ← pQ ts
+    let (v, ts) ← pInt ts
+    let (d, ts) ← pQ ts
+    match vhObject id v with
+    | some t => pure (.op (.add t d), ts)
+    | none => pure (.addBad, ts)
+  | "has" :: ts => do
+    let (id, ts) ← pQ ts
+    pure (.op (.has id), ts)
+  | "size" :: ts => some (.op .size, ts)
+  | "desc" :: ts => do
+    let (id, ts) ← pQ ts
+    pure (.op (.descr id), ts)
+  | "get" :: ts => do
+    let (id, ts) ← pQ ts
+    pure (.op (.get id), ts)
+  | "ids" :: ts => do
+    let (pat, ts) ← pPat ts
+    pure (.op (.ids pat), ts)
+  | "setp" :: ts => do
+    let (v, ts) ← pNat ts
+    let (name, ts) ← pQ ts
+    let (op, ts) ← pOp ts
+    match op with
+    | .setInt _ | .setFloat _ | .setString _ => pure (.op (.setp v name op), ts)
+    | _ => none
+  | "clonev" :: ts => do
+    let (v, ts) ← pNat ts
+    pure (.op (.cloneVar v), ts)
+  | _ => none
+
+def showFAns : FAns XF → Option String
+  | .flag b => some s!"ok {showBool b}"
+  | .count n => some s!"ok {n}"
+  | .null => some "null"
+  | .obj t => some s!"ok {showTree t}"
+  | .names ids => some (String.intercalate " " ("ok" :: toString ids.length :: ids.map showQ))
+  | .text s => some s!"ok {showQ s}"
+  | .res r => some (showRes r)
+  | .bad => none
+
+def showFState (st : FState XF) : String :=
+  String.intercalate " " (toString st.vars.length :: st.vars.map showTree) ++ " " ++
+  String.intercalate " " (toString st.factory.size ::
+    st.factory.allIds.map (fun id => s!"{showQ id} " ++ ((st.factory.get id).map showTree).getD "?"))
+
+def factRun : FState XF → List FLine → String → Option String
+  | _, [], acc => some acc
+  | st, .addBad :: ls, acc => factRun st ls (acc ++ s!" ; throw critical / {showFState st}")
+  | st, .op o :: ls, acc =>
+    let r := fstep st o
+    match showFAns r.2 with
+    | none => none
+    | some a => factRun r.1 ls (acc ++ s!" ; {a} / {showFState r.1}")
+
+def factHist (ts : Toks) : Option String := do
+  let (n, ts) ← pNat ts
+  let (ls, ts) ← pMany pFLine n ts
+  guard ts.isEmpty
+  factRun ⟨Factory.empty, []⟩ ls "ok"
+
+/-- `factory.ids(regex)` on a real factory: the ids of the table, filtered -/
+def factoryIdsRe (ts : Toks) : Option String := do
+  let (f, ts) ← pStr ts
+  let (pat, ts) ← pPat ts
+  guard ts.isEmpty
+  guard (FactoryParams.chunks.any (fun ch => ch.any (·.factory == f)) || f == "generator" || f == "function")
+  let ids := ((FactoryParams.table.filter (·.factory == f)).map (·.id)).filter pat.matches
+  pure (String.intercalate " " ("ok" :: toString ids.length :: ids.map showQ))
+
 def handle (fam : String) (ts : Toks) : Option String :=
   match fam, ts with
   | "param", "hist" :: ts => paramHist ts
@@ -399,6 +609,9 @@ def handle (fam : String) (ts : Toks) : Option String :=
   | "factory", ["ids", f] => factoryIds f
   | "factory", "walk" :: ts => factoryWalk ts
   | "owner", "hist" :: ts => ownerHist ts
+  | "paramx", "hist" :: ts => paramxHist ts
+  | "fact", "hist" :: ts => factHist ts
+  | "factory", "idsre" :: ts => factoryIdsRe ts
   | _, _ => none
 
 end NanoVerif.Driver.Parameter
